@@ -30,6 +30,9 @@ type Case struct {
 	Spans      []rdcat.Span        `json:"spans,omitempty"`
 	Hits       []rdcat.TraceHit    `json:"hits,omitempty"`
 	TQL        []rdcat.TQLTrace    `json:"tql,omitempty"`
+	// Portioned: the complexity probe is answered with 25e6 index rows, so the search is processed in portions;
+	// every portion's statement is answered with the same traces (the later ones ask for the ids found so far again)
+	Portioned bool `json:"portioned,omitempty"`
 	// resampling description for matrix/vector classes
 	FromNs    int64 `json:"from_ns,omitempty"`
 	StepNs    int64 `json:"step_ns,omitempty"`
@@ -463,6 +466,10 @@ func genCase(r *rand.Rand, idx int) *Case {
 		c.Req = rdcat.Req{Method: "GET", Path: "/api/search", RawQuery: rdcat.Q("tags", `service.name="x"`, "start", fmt.Sprint(baseS), "end", fmt.Sprint(baseS+3600), "limit", "1000")}
 	case "tempo.search.traceql":
 		total := []int{0, 1, 2, 3, 20, 100, 101}[r.Intn(7)]
+		if r.Intn(3) == 0 {
+			c.Portioned = true
+			total = []int{0, 0, 1}[r.Intn(3)]
+		}
 		for i := 0; i < total; i++ {
 			t := rdcat.TQLTrace{TraceID: rdcat.HexID(r, 16), Service: hostileOrSafe(r, p), Name: hostileOrSafe(r, p), StartNs: baseS*1e9 + r.Int63n(3600e9),
 				DurMs: math.Abs(drawFloat(r, false))}
@@ -789,6 +796,9 @@ func (c *Case) rows(k rdcat.Kind) [][]driver.Value {
 	case rdcat.KTempoSearch:
 		return rdcat.TraceHitRows(c.Hits)
 	case rdcat.KTQLCount:
+		if c.Portioned {
+			return [][]driver.Value{{int64(25000000)}}
+		}
 		return [][]driver.Value{{int64(5)}}
 	case rdcat.KTQLTraces:
 		return rdcat.TQLRows(c.TQL)
